@@ -92,7 +92,7 @@ def run(argv):
 
 def vclass(b):
     return {'0': 'zero', '-0.0': 'zero', '-1': 'negative', '1e300': 'huge', '1e30': 'huge', '1e-300': 'tiny', 'nan': 'nonfinite',
-            'inf': 'nonfinite', '-inf': 'nonfinite', 'x': 'text', '': 'empty', '9': 'other', '99': 'other'}.get(b, 'other')
+            'inf': 'nonfinite', '-inf': 'nonfinite', 'x': 'text', 'all': 'keyword', '': 'empty', '9': 'other', '99': 'other'}.get(b, 'other')
 
 
 def mutations(rng):
@@ -143,7 +143,8 @@ def mutations(rng):
             extra = ['--frequency-steps=2']
         base = [a for a in B if not a.startswith(opt)]
         for k in range(len(fields)):
-            for b in rng.sample(BAD_NUM + ['x', '', '9', '99'], 4):
+            for b in rng.sample(BAD_NUM + ['x', '', '9', '99'], 4) + (['all'] if opt == '--attach-load' else []):
+                # ('all' is a keyword of --attach-load: it must be harmless in every position)
                 f = list(fields)
                 f[k] = b
                 ex = [e for e in extra if not e.startswith(opt + '=')]
